@@ -56,9 +56,36 @@ def _strategy(maxW: int):
                 st_ = draw(gen.st_step(npar, cfg["gscale"], edits=False, allow_absent=False))
                 st_["mask"] = [True] + [draw(st.booleans()) for _ in range(npar - 1)]
                 steps.append(st_)
+        dc.st_param_edits(draw, steps, len(shapes))
         return {"flavour": "ddp", "R": W, "S": 1, "G": G, "comm_params": draw(st.booleans()), "comm_dtype": draw(st.sampled_from(["default", "fp32", "fp16", "bf16"])),
                 "cfg": cfg, "shapes": shapes, "pseed": draw(st.integers(0, 10**5)), "steps": steps, "repair": True,
-                "pdtypes": ([draw(st.sampled_from(["bf16", "f32", "f32"])) for _ in shapes] if (draw(st.integers(0, 5)) == 0 and cfg["pdtype"] in ("f32", "bf16")) else None)}
+                "pdtypes": (draw(st.one_of(st.lists(st.sampled_from(["bf16", "f32", "f32", "f16"]), min_size=len(shapes), max_size=len(shapes)), st.just(["f16"] * len(shapes))))
+                            if (draw(st.sampled_from([False] * 4 + [True])) and cfg["pdtype"] in ("f32", "bf16")) else None)}
+
+    return case()
+
+
+def strategy_big():
+    """A block whose all-gather buffer exceeds a few MiB next to small blocks (uneven loads): sizes at which implementations start to slice, chunk or
+    re-order collectives.  Warm-up only (start step beyond the history), so no 1100x1100 eigendecompositions are needed."""
+    from hypothesis import strategies as st
+
+    @st.composite
+    def case(draw: Any) -> dict:
+        W = draw(st.sampled_from([2, 2, 3, 4]))
+        G = draw(st.sampled_from([-1, -1, 2])) if W == 4 else -1
+        cfg = dict(_BASE_CFG, mpd=2048, start=gen.INF_STEP, graft=draw(st.sampled_from([{"type": "sgd"}, {"type": "adagrad", "eps": 1e-8}, {"type": "adam", "eps": 1e-8, "beta2": 0.99}])),
+                   beta1=draw(st.sampled_from([0.0, 0.9])), momentum=draw(st.sampled_from([0.0, 0.5])))
+        big = draw(st.sampled_from([[1100, 1100], [1030, 1030], [1500, 800], [2047, 1025]]))
+        shapes = [big] + [draw(st.sampled_from([[2, 2], [3], [40, 40], [300, 300]])) for _ in range(draw(st.integers(1, 3)))]
+        if draw(st.booleans()):
+            shapes.append([1040, 1040])
+        if draw(st.booleans()):
+            shapes = shapes[::-1]
+        T = draw(st.integers(2, 3))
+        steps = [dict(draw(gen.st_step(len(shapes), 1.0, edits=False, allow_absent=False)), gkind="gauss") for _ in range(T)]
+        return {"flavour": "ddp", "R": W, "S": 1, "G": G, "comm_params": draw(st.booleans()), "comm_dtype": draw(st.sampled_from(["default", "fp32", "default", "bf16"])),
+                "cfg": cfg, "shapes": shapes, "pseed": draw(st.integers(0, 10**5)), "steps": steps, "repair": True, "pdtypes": None}
 
     return case()
 
@@ -86,6 +113,13 @@ def oracle(case: dict) -> Outcome:
             t += 1
             refresh = refresh or rm.is_refresh(t, pb.eff["start"], pb.eff["freq"])
     out.nontrivial = pb.W >= 2 and pb.group_size >= 2 and refresh and "rejected_some_rank_without_block" not in out.classes
+    return out
+
+
+def oracle_big(case: dict) -> Outcome:
+    out = oracle(case)
+    out.classes.append("all_gather_buffer_over_4MiB")
+    out.nontrivial = case["R"] >= 2
     return out
 
 
@@ -121,5 +155,6 @@ def oracle_with_probe(case: dict) -> Outcome:
 
 STREAMS = {
     "worlds": Stream("worlds", oracle=oracle_with_probe, strategy=strategy, quick=640, thorough=0, shards_quick=16, shards_thorough=16),
+    "big_buffers": Stream("big_buffers", oracle=lambda case: oracle_big(case), strategy=strategy_big, quick=12, thorough=160, shards_quick=4, shards_thorough=16),
     "worlds_large": Stream("worlds_large", oracle=oracle_with_probe, strategy=strategy_thorough, quick=0, thorough=6000, shards_quick=16, shards_thorough=16),
 }
